@@ -449,7 +449,16 @@ def rule_P(ctx):
     c20.proj_on_track_rule(ctx, 'C10.P')
 
 
+def rule_V(ctx):
+    """C10.V the decoder that chooses among the candidates writes its choice on the track it is given - on a first matching and on a
+    second matching of the same track (other radius, other network): HMM.estimate interpreted twice on the same decoder and track
+    with different tables, and in the position mode map-matching uses"""
+    from . import c09
+    c09.rule_V(ctx, rid='C10.V', only=('reuse', 'observation modes'))
+
+
 RULES = [
+    ('C10.V', rule_V, 'quick'),
     ('C10.P', rule_P, 'quick'),
     ('C10.D', rule_D, 'quick'),
     ('C10.N', rule_N, 'quick'),
